@@ -172,14 +172,14 @@ func WConfig(prop, tier string) *Config {
 	case "C10":
 		ops := []string{"llp_open_t1_x3_stoploss", "llp_open_t2_x5", "llp_open_t3_x9", "llp_open_t1_x2_again", "perp_open_long_t1_stoploss", "perp_open_short_t2", "perp_open_long_t3_x5", "perp_open_long_t3_max", "perp_topup_t1", "perp_update_sl_t1",
 			"price_atom_4", "price_atom_3", "price_atom_2", "price_atom_6.5", "price_atom_8", "price_atom_12", "gap_1d", "gap_30d",
-			"llp_bot_close_all", "llp_bot_stoploss_all", "llp_other_trader_closes_all", "perp_bot_liquidate_all", "perp_bot_stoploss_all", "perp_bot_takeprofit_all", "perp_bot_close_all", "perp_other_trader_closes_all_twice",
+			"llp_bot_close_all", "llp_bot_stoploss_all", "llp_bot_stoploss_all_at_4", "llp_bot_close_all_at_2", "llp_bot_close_all_at_1", "llp_other_trader_closes_all", "perp_bot_liquidate_all", "perp_bot_stoploss_all", "perp_bot_takeprofit_all", "perp_bot_close_all", "perp_other_trader_closes_all_twice",
 			"perp_close_half_t1", "llp_close_half_t1", "unbond_lp2_all", "empty"}
 		cfg.Oracles = []*Oracle{OracleC10()}
 		core := []string{"llp_open_t1_x3_stoploss", "llp_open_t3_x9", "perp_open_long_t1_stoploss", "perp_open_short_t2", "perp_open_long_t3_max", "price_atom_4", "price_atom_2", "price_atom_8", "gap_30d", "llp_bot_close_all", "llp_bot_stoploss_all", "perp_bot_close_all", "perp_other_trader_closes_all_twice", "empty"}
 		if thorough {
-			cfg.Phases = []Phase{{Name: "full-depth3", Roots: roots01, Ops: ops, Depth: 3, Dev: 3}, {Name: "core-depth4", Roots: []string{"R1"}, Ops: core, Depth: 4, Dev: 4}}
+			cfg.Phases = []Phase{{Name: "full-depth3", Roots: []string{"R0", "R1", "R7"}, Ops: ops, Depth: 3, Dev: 3}, {Name: "core-depth4", Roots: []string{"R1"}, Ops: core, Depth: 4, Dev: 4}}
 		} else {
-			cfg.Phases = []Phase{{Name: "full-depth2", Roots: roots01, Ops: ops, Depth: 2, Dev: 2}, {Name: "core-depth3", Roots: []string{"R1"}, Ops: []string{"llp_open_t3_x9", "perp_open_long_t3_max", "price_atom_4", "price_atom_2", "price_atom_8", "gap_30d", "llp_bot_close_all", "llp_bot_stoploss_all", "perp_bot_close_all", "perp_other_trader_closes_all_twice"}, Depth: 3, Dev: 3}}
+			cfg.Phases = []Phase{{Name: "full-depth2", Roots: []string{"R0", "R1", "R7"}, Ops: ops, Depth: 2, Dev: 2}, {Name: "core-depth3", Roots: []string{"R1"}, Ops: []string{"llp_open_t3_x9", "perp_open_long_t3_max", "price_atom_4", "price_atom_2", "price_atom_8", "gap_30d", "llp_bot_close_all", "llp_bot_stoploss_all", "perp_bot_close_all", "perp_other_trader_closes_all_twice"}, Depth: 3, Dev: 3}}
 		}
 	default:
 		return nil
